@@ -1,35 +1,58 @@
 //! Scenario = explicit, replayable description of one simulated run (all worlds).
 use crate::core::*;
 use crate::w1ops::W1Scn;
+use crate::w3ops::W3Scn;
 use serde::{Deserialize, Serialize};
 
 #[derive(Clone, Debug, Serialize, Deserialize, PartialEq)]
 pub enum Scenario {
     W1(W1Scn),
+    W3(W3Scn),
 }
 
 impl Scenario {
+    /// Execute the scenario. An abort anywhere outside the guarded calls into bourse (e.g. a monitor indexing with
+    /// an id the real code made up) is reported as a violation of the scenario's property, never as a crash.
     pub fn execute(&self, run_dir: &str) -> RunOutcome {
+        match guard(|| self.execute_inner(run_dir)) {
+            Ok(o) => o,
+            Err(msg) => RunOutcome {
+                violation: Some(Violation::new(self.property(), "oracle-abort", 0, "harness", "observations an oracle can index".into(), msg).detail("an oracle aborted while evaluating observations of the real code (ids or lengths out of range)".into())),
+                stats: RunStats::default(),
+            },
+        }
+    }
+    pub fn property(&self) -> &str {
+        match self {
+            Scenario::W1(s) => &s.cfg.property,
+            Scenario::W3(s) => &s.cfg.property,
+        }
+    }
+    fn execute_inner(&self, run_dir: &str) -> RunOutcome {
         match self {
             Scenario::W1(s) => crate::w1exec::execute(s, run_dir),
+            Scenario::W3(s) => crate::w3exec::execute(s),
         }
     }
     /// length of the list ddmin works on
     pub fn len(&self) -> usize {
         match self {
             Scenario::W1(s) => s.ops.len(),
+            Scenario::W3(s) => s.ops.len(),
         }
     }
     /// scenario with list elements `keep[i] == false` removed
     pub fn filtered(&self, keep: &[bool]) -> Scenario {
         match self {
             Scenario::W1(s) => Scenario::W1(crate::shrink::w1_filtered(s, keep)),
+            Scenario::W3(s) => Scenario::W3(crate::shrink::w3_filtered(s, keep)),
         }
     }
     /// single-step simplifications (each candidate differs from self in one place)
     pub fn simplifications(&self) -> Vec<Scenario> {
         match self {
             Scenario::W1(s) => crate::shrink::w1_simplifications(s).into_iter().map(Scenario::W1).collect(),
+            Scenario::W3(s) => crate::shrink::w3_simplifications(s).into_iter().map(Scenario::W3).collect(),
         }
     }
     pub fn world(&self) -> &'static str {
@@ -39,6 +62,13 @@ impl Scenario {
                     "W2-market"
                 } else {
                     "W1-book"
+                }
+            }
+            Scenario::W3(s) => {
+                if s.cfg.market {
+                    "W3-market-env"
+                } else {
+                    "W3-env"
                 }
             }
         }
